@@ -22,6 +22,26 @@ def _get_kwargs(node: ir.Node) -> dict[str, float | int]:
     return kwargs
 
 
+_FUSED_MATMUL_TYPES = frozenset(
+    [ir.DataType.FLOAT, ir.DataType.FLOAT16, ir.DataType.DOUBLE, ir.DataType.BFLOAT16]
+)
+
+
+def _check_divisor(check_result: orp.MatchResult, x: ir.Value, cst: ir.Value) -> orp.MatchResult:
+    """The divisor must be a non-zero constant of shape () or (1,) and the operands a FusedMatMul type."""
+    if cst.const_value is None:
+        return check_result.fail("Divisor is not a constant value.")
+    value = cst.const_value.numpy()
+    if value.size != 1 or value.ndim > 1:
+        # A singleton of higher rank may change the rank of the output of Div.
+        return check_result.fail("Divisor is not a scalar value.")
+    if x.dtype is not None and x.dtype not in _FUSED_MATMUL_TYPES:
+        return check_result.fail("FusedMatMul supports floating point operands only.")
+    if float(value.reshape(())) == 0.0:
+        return check_result.fail("Divisor is zero.")
+    return check_result
+
+
 class FusedMatMulDiv1(orp.RewriteRuleClassBase):
     """Replaces ``MatMul + Div`` with MatMul."""
 
@@ -30,16 +50,10 @@ class FusedMatMulDiv1(orp.RewriteRuleClassBase):
 
     def check(self, context, x, y, cst) -> orp.MatchResult:
         check_result = orp.MatchResult()
-        if cst.const_value is None:
-            return check_result.fail("Divisor is not a constant value.")
-        value = cst.const_value.numpy()
-        if value.size > 1:
-            return check_result.fail("Divisor is not a scalar value.")
-        return check_result
+        return _check_divisor(check_result, x, cst)
 
     def rewrite(self, op, x, y, cst):
-        value = cst.const_value.numpy()
-        c = float(value[0] if value.shape == (1,) else value)
+        c = float(cst.const_value.numpy().reshape(()))
         return op.FusedMatMul(x, y, alpha=1 / c, _domain="com.microsoft")
 
 
@@ -51,15 +65,10 @@ class FusedMatMulDiv2(orp.RewriteRuleClassBase):
 
     def check(self, context, x, y, cst, **_) -> orp.MatchResult:
         check_result = orp.MatchResult()
-        if cst.const_value is None:
-            return check_result.fail("Divisor is not a constant value.")
-        if cst.const_value.numpy().size > 1:
-            return check_result.fail("Divisor is not a scalar value.")
-        return check_result
+        return _check_divisor(check_result, x, cst)
 
     def rewrite(self, op, x, y, cst, fused: ir.Value):
-        value = cst.const_value.numpy()
-        c = float(value[0] if value.shape == (1,) else value)
+        c = float(cst.const_value.numpy().reshape(()))
         fused_node = _get_node(fused, "FusedMatMul")
         kwargs = _get_kwargs(fused_node)
         kwargs["alpha"] = kwargs.get("alpha", 1.0) / c
@@ -73,9 +82,14 @@ class _TransposeMatMulBase(orp.RewriteRuleClassBase):
         self, context, x, y, transposed: ir.Value, fused: ir.Value | None = None, **_
     ) -> orp.MatchResult:
         check_result = orp.MatchResult()
+        if _ir_utils.has_rank(x, 1) or _ir_utils.has_rank(y, 1):
+            # transA/transB are not applicable when MatMul promotes a 1-D operand.
+            return check_result.fail("TransposeMatMul rule does not apply to 1-D operands.")
         transposed_node = _get_node(transposed, "Transpose")
         perm = transposed_node.attributes.get_ints("perm")
         if perm:
+            if len(perm) < 2:
+                return check_result.fail("Transpose of a tensor of rank < 2.")
             # Check that last two dimensions are swapped
             expected_perm = list(range(len(perm)))
             expected_perm[-2], expected_perm[-1] = expected_perm[-1], expected_perm[-2]
@@ -189,7 +203,8 @@ class _TransposeFusedMatMulBaseWithBatch(orp.RewriteRuleClassBase):
         trans_batch = fused_node.attributes.get_int(trans_batch_property, 0)
         transposed_node = _get_node(transposed, "Transpose")
         perm = list(transposed_node.attributes["perm"].as_ints())
-        if not perm:
+        if len(perm) < 3:
+            # transBatchA/transBatchB require operands of rank >= 3
             return check_result.fail("Permutation values for Transpose are not correct.")
 
         list_perm = list(range(len(perm)))
@@ -311,8 +326,11 @@ class MatMulTranspose(orp.RewriteRuleClassBase):
         if fused:
             fused_node = _get_node(fused, "FusedMatMul")
             kwargs = _get_kwargs(fused_node)
-        for name in ["transA", "transB"]:
-            kwargs[name] = 1 - kwargs.get(name, 0)
+        # (op_a(x) @ op_b(y))^T = op_b(y)^T @ op_a(x)^T: the flags swap sides together with the operands.
+        trans_a = kwargs.get("transA", 0)
+        trans_b = kwargs.get("transB", 0)
+        kwargs["transA"] = 1 - trans_b
+        kwargs["transB"] = 1 - trans_a
         return op.FusedMatMul(y, x, **kwargs, _domain="com.microsoft")
 
 
